@@ -89,6 +89,9 @@ type Sched struct {
 	settleSince   int
 	settleExtra   int
 	consec        int
+	sameOp        int
+	lastKind      string
+	lastObj       uintptr
 	lastPicked    *Thread
 	Spinning      bool // WaitSettled was released by its step budget, not by quiescence
 	spawnFlags    map[string]bool
@@ -368,8 +371,10 @@ func (s *Sched) pick(self *Thread) *Thread {
 		// loop) is moved behind them after fairLimit consecutive steps; deterministic, so replay holds
 		if self != nil && en[0] == self && s.consec >= fairLimit {
 			s.consec = 0
-			if s.pendingTimers() {
-				// time passes while a thread spins: let the earliest timer fire
+			if s.sameOp >= fairLimit && s.pendingTimers() {
+				// the same operation over and over (a spin loop): time passes meanwhile, let the
+				// earliest timer fire
+				s.sameOp = 0
 				s.advanceClock()
 				continue
 			}
@@ -393,10 +398,16 @@ func (s *Sched) pick(self *Thread) *Thread {
 		t := en[c]
 		if t == s.lastPicked {
 			s.consec++
+			if t.pending.kind == s.lastKind && t.pending.obj == s.lastObj {
+				s.sameOp++
+			} else {
+				s.sameOp = 0
+			}
 		} else {
-			s.consec = 0
+			s.consec, s.sameOp = 0, 0
 			s.lastPicked = t
 		}
+		s.lastKind, s.lastObj = t.pending.kind, t.pending.obj
 		s.Steps++
 		if !s.cfg.NoRecord {
 			s.fingerprint(t)
